@@ -314,8 +314,8 @@ def gen_case(rng):
     bkind = rng.choice(['enum', 'enum', 'str', 'custom'])
     bname = rng.choice(['AIG', 'XAIG', 'FULL'])
     if bkind == 'custom':
-        ops = rng.sample(OPS16, rng.randint(2, 8))
-        if 'AND' not in ops and rng.random() < 0.7:
+        ops = rng.sample(OPS16, rng.choice([0, 1, 1, 2, 3, 4, 5, 6, 8]))   # incl. the empty and one-operation lists
+        if 'AND' not in ops and len(ops) >= 2 and rng.random() < 0.7:
             ops.append('AND')
     else:
         ops = BASES[bname]
